@@ -487,7 +487,21 @@ def rule_SQ5(ctx, tier, which=None):
                     if c and c[0] in LINKS:
                         counted.add(c[0])
         counted = sorted(counted)
-        if counted == ["invalid_appointments", "pending_appointments"]:
+        stmts = [(bb, st, sql.classify(st)) for bb, st in sql.body_sql(d)]
+        bodydels = [(bb, st) for bb, st, c in stmts if c["kind"] == "delete" and c.get("table") == "appointments"]
+        own_first = [i for i, (bb, st, c) in enumerate(stmts) if c["kind"] == "delete" and c.get("table") == "pending_appointments" and "tower_id" in st.lower()]
+        after_the_fact = bool(bodydels) and all(_orphans_only(st) for bb, st in bodydels) and bool(own_first) and \
+            all(min(own_first) < i for i, (bb, st, c) in enumerate(stmts) if c["kind"] == "delete" and c.get("table") == "appointments")
+        if after_the_fact:
+            rr.ok("delete_pending_appointment removes its own link first and the body only when no link refers to it any more", sample={"rule": "SQ5", "body delete": sql.norm(bodydels[0][1])[:160]})
+        else:
+            # counting the references BEFORE deleting cannot tell whose the last one is: when it belongs to another tower (this
+            # tower was abandoned and registered again while a retrier still held the locator) the body goes, and the other
+            # tower's pending row with it through the cascade
+            rr.fail("client:body-deleted-on-foreign-reference", "delete_pending_appointment decides from a reference COUNT taken before it deletes anything whether to delete the shared body: `count == 1` does not say that the one reference is this tower's. After `abandontower` + `registertower` a retrier still working on the old pending set delivers an appointment that is pending for another tower only, and the body — with that tower's pending row, by cascade — is deleted", where=d.span)
+        if after_the_fact:
+            pass
+        elif counted == ["invalid_appointments", "pending_appointments"]:
             rr.ok("shared appointment body deleted only when pending + invalid references == 1", sample={"rule": "SQ5", "reference count over": counted})
         else:
             rr.fail("client:refcount-tables:%s" % ",".join(counted), "delete_pending_appointment counts references over %s; both pending_appointments and invalid_appointments hold links to the shared body" % counted, where=d.span)
@@ -507,6 +521,9 @@ def rule_SQ5(ctx, tier, which=None):
         for bb, st in sql.body_sql(d):
             c = sql.classify(st)
             if c["kind"] != "delete" or c.get("table") != "appointments":
+                continue
+            if after_the_fact:
+                rr.ok("DELETE FROM appointments restricted to unreferenced bodies")
                 continue
             ok = False
             for f in facts_at(ctx, d, bb):
